@@ -551,6 +551,32 @@ func (g *qeGen) request() string {
 	r := g.r
 	table := vPick(r, g.tables)
 	g.count("table:" + table)
+	if g.pCutoff > 0 && (table == "hosts" || table == "services") && r.chance(1, 8) {
+		// cluster: aggregates over a selection that leaves some node without any matching row (its part of the
+		// answer is the "nothing counted" placeholder, which must not take part in min / max)
+		hcol := "name"
+		if table == "services" {
+			hcol = "host_name"
+		}
+		names := g.dataValues(table, hcol)
+		name := "nothing"
+		if len(names) > 0 {
+			name = vPick(r, names)
+		}
+		g.count("shape:narrow-aggregate")
+		lines := []string{"GET " + table, fmt.Sprintf("Filter: %s = %s", hcol, name)}
+		for _, agg := range []string{"min", "max", "avg", "sum"} {
+			if r.chance(2, 3) {
+				lines = append(lines, fmt.Sprintf("Stats: %s %s", agg, vPick(r, []string{"latency", "execution_time", "state"})))
+			}
+		}
+		if len(lines) == 2 {
+			lines = append(lines, "Stats: min latency")
+		}
+		lines = append(lines, "OutputFormat: "+vPick(r, []string{"json", "wrapped_json"}))
+
+		return strings.Join(lines, "\n") + "\n\n"
+	}
 	if (table == "hosts" || table == "services") && (g.pIndexLeaf > 0 && g.pLimit >= 50 && r.chance(1, 5) || r.intn(100) < g.pCutoff) {
 		return g.cutoffRequest(table)
 	}
